@@ -15,6 +15,11 @@ CONSTANTS
   Menu = {{}, {0}, {0, 1}}
   Moods = {"quiet", "plain", "reorg"}
   MaxReorgs = 2
-  Fams = {"att", "sync", "bids"}
+  MsgLates = {0, 1, 3}
+  AucLates = {0, 1, 3}
+  SubLates = {0}
+  AttLates = {0}
+  MaxHeld = 1
+  Fams = {"att"}
 INVARIANTS TypeOK RunningLeftTable AttestedBounded SubsBounded RootsBounded RecordsBounded BidsBounded JobsBounded PendingExact
 CHECK_DEADLOCK FALSE
